@@ -66,6 +66,8 @@ class CallsMixin:
         if callee == 'sort::Search':
             return self.ho_sort_search(st, fr, ins, callee, args)
         con = self.prog.cs.funcs.get(callee)
+        if con is not None and getattr(con, 'has_cases', False):
+            con = None   # behaviours need not be exhaustive: callers see an opaque function
         oc = cx.contract.opts.get('opaque-callees', '')
         if con is not None and oc and any(x and x in callee for x in oc.split(',')):
             cx.notes.append('contract of %s deliberately not used here (treated as opaque)' % callee)
